@@ -108,7 +108,7 @@ def classify(p, d, rec, claims):
                 'converter emits `%s = ag__.Undefined(...)` before that statement (the handler binding is not a reaching '
                 'definition), so the bound exception is lost and a later read raises NameError' % (hn, hn, hn))
     hs = handler_name_used_outside_handler(p)
-    if hs and obs[0] == 'exc' and obs[1] == 'NameError' and exp != obs:
+    if hs and obs[0] == 'exc' and obs[1] == 'NameError' and (exp != obs or earlier):
         return ('c01:except-as-name-shadows-outer-variable-in-generated-body',
                 'the name %s is bound by `except ... as %s` and is an ordinary variable of the function outside that handler; when '
                 'the try statement ends up inside a generated body function the except clause makes the name local to it, so '
